@@ -48,7 +48,10 @@ Proof.
     destruct (s_lock w); [discriminate|]. inversion H; subst; clear H. split; [exact Hn|]. split; [exact Hl|].
     intro Hw. rewrite lastword_send. destruct (url_eqb u (l_url l')) eqn:E; [|exact Hw].
     apply url_eqb_eq in E. subst u. unfold pubval. rewrite Hn. reflexivity.
+  - (* ILoadUD: waits for dict_write_lock *)
+    destruct (s_dlock w); [discriminate|]. inversion H; subst; repeat split; auto.
   - (* ILoadFD *)
+    destruct (s_dlock w); [discriminate|].
     destruct (is_file (l_url l)); inversion H; subst; repeat split; auto.
   - (* IIgnore *)
     destruct (s_lock w); [discriminate|]. destruct (lookup (l_url l) (s_docs w)) as [e|] eqn:Ee; inversion H; subst; clear H; [|repeat split; auto].
